@@ -1018,6 +1018,8 @@ void SimplifyConstTimes::constSimplify(SymRef s, vec<PTRef> const & terms, SymRe
         }
         if (not l.isOne(tr)) {
             if (l.isPlus(tr)) {
+                // Keep every sum: a product with two sums is non-linear and must be reported, not truncated
+                if (plus != PTRef_Undef) { terms_new.push(plus); }
                 plus = tr;
             } else if (l.isConstant(tr)) {
                 con = tr;
